@@ -197,7 +197,7 @@ func c02Structured(r *Rand, maxLen int) []byte {
 // c02Valid marshals a well-formed packet (C01's generator).
 func c02Valid(r *Rand, maxPayload int) []byte {
 	for {
-		q := genPacketWF(r, maxPayload).Build()
+		q := genPacketWFNarrow(r, maxPayload).Build()
 		bs, err := q.Marshal()
 		if err == nil {
 			return bs
@@ -217,7 +217,7 @@ func c02Rich(r *Rand) []byte {
 	p.H.Extension = true
 	kind := r.Pick(profOne, profTwo, profLegacy)
 	for len(p.Exts) < 2 && kind != profLegacy || len(p.Exts) == 0 {
-		p.H.ExtensionProfile, p.Exts = genExts(r, kind, 12)
+		p.H.ExtensionProfile, p.Exts = genExtsNarrow(r, kind, 12)
 	}
 	p.Payload = r.Bytes(r.Intn(40))
 	p.H.Padding = true
@@ -561,6 +561,12 @@ func observeC05(c *Case, desc *PacketIn, wire []byte, ops []c05Op, prevs ...[]by
 	for _, op := range ops {
 		op := op
 		var err error
+		// a zero-length value is handed over as a literal nil slice half of the time (the same value
+		// to the property and the model; the library may tell them apart: `GetExtension(id) == nil`)
+		if op.set && op.val != nil && len(op.val) == 0 && c.R.Bool() {
+			op.val = nil
+			c.Tag("set:nil-slice")
+		}
 		panicked := try(func() {
 			if op.set {
 				err = h.SetExtension(op.id, op.val)
@@ -822,7 +828,70 @@ func genC05(x *Ctx) {
 	if x.Thorough() {
 		enum([]int{0, 1, 2, 15}, []int{0, 1, 4, 17, 256}, 4)
 	}
-	// (3) random histories of 0–30 operations
+	// (3) "fill the table": histories after which a two-byte header holds EVERY id 1 … 255, with values
+	// of 255 bytes or a few bytes less in total — the largest block SetExtension can build
+	// (255·257 = 65535 bytes = 16384 words) and the blocks just below it.  The last `m` ids are added
+	// by SetExtension calls on a header that already holds the others (decoded from the wire, or given
+	// as a struct); m = 255 is the whole history from a fresh / preset header (values of 0 … 4 bytes
+	// there except in one case per tier-size: every step reads back all values).  Now and then a
+	// delete and re-insert, or an update, follows.
+	type fill struct{ m, short int }
+	fills := []fill{{1, 0}, {1, 1}, {1, 2}, {1, 3}, {1, 4}, {1, 700}, {2, 0}, {2, 1}, {3, 2}, {8, 0}, {8, 3}, {255, -1}, {255, -1}, {255, 0}}
+	if x.Thorough() {
+		fills = append(fills, fill{255, 1}, fill{255, 2}, fill{255, 3}, fill{40, 0}, fill{40, 2})
+	}
+	for _, f := range fills {
+		for rep := 0; rep < 3; rep++ {
+			f, rep := f, rep
+			if f.m == 255 && f.short >= 0 && rep > 0 {
+				continue
+			}
+			x.Case(func(c *Case) {
+				r := c.R
+				vals := genExtsTwoFull(r, r.Perm(255), 0)
+				if f.short < 0 {
+					for i := range vals {
+						vals[i].Payload = vals[i].Payload[:r.Pick(0, 1, 2, 3, 4)]
+					}
+				} else {
+					vals = genExtsTwoFull(r, r.Perm(255), f.short)
+				}
+				p := &PacketIn{}
+				genFixed(r, &p.H)
+				var wire []byte
+				desc := p
+				name := []string{"fresh", "preset-twobyte", "wire"}[rep]
+				if f.m < 255 {
+					p.H.Extension, p.H.ExtensionProfile = true, 0x1000
+					p.Exts = vals[:255-f.m]
+					name = "preset-elements"
+					if rep != 0 {
+						wire, _ = p.Build().Header.Marshal()
+						desc, name = nil, "wire"
+					}
+				} else if rep == 1 || f.short >= 0 {
+					p.H.Extension, p.H.ExtensionProfile = true, 0x1000
+					name = "preset-twobyte"
+				}
+				var ops []c05Op
+				for _, e := range vals[255-f.m:] {
+					ops = append(ops, c05Op{set: true, id: e.ID, val: e.Payload})
+				}
+				switch r.Intn(4) {
+				case 0: // delete one id and insert it again (it moves to the end)
+					e := vals[r.Intn(255)]
+					ops = append(ops, c05Op{set: false, id: e.ID}, c05Op{set: true, id: e.ID, val: r.Bytes(len(e.Payload))})
+				case 1: // update one value in place
+					e := vals[r.Intn(255)]
+					ops = append(ops, c05Op{set: true, id: e.ID, val: r.Bytes(len(e.Payload))})
+				}
+				c.Tag("start=" + name)
+				c.Tag("fill-the-table")
+				observeC05(c, desc, wire, ops)
+			})
+		}
+	}
+	// (4) random histories of 0–30 operations
 	for i, n := 0, x.N(150000, 3000000); i < n; i++ {
 		x.Case(func(c *Case) {
 			r := c.R
